@@ -162,3 +162,21 @@ Definition auto_actions_from (pre : list action) (extra : list msg) (ks : list Z
 Definition auto_actions (ks : list Z) (fuel : nat) : list action := auto_actions_from [] [] ks fuel.
 
 End Run.
+
+(* ---------- network-level correspondence: a real multi-node execution as a schedule of the network model ---------- *)
+(* final observation of a member: (index, decided value?, round, phase code) *)
+Definition net_final_ok (n : net) (finals : list (Z * option chain * Z * Z)) : bool :=
+  forallb (fun f => let '(k, dec, rd, ph) := f in
+             let i := n_inst n k in
+             match dec, i_term i with
+             | Some v, Some j => chain_eqb (j_value j) v
+             | None, None => (i_round i =? rd) && (phase_code (i_phase i) =? ph)
+             | _, _ => false
+             end) finals.
+Definition net_trace_ok (c : config) (honest : list bool) (inputs : list chain) (acts : list action) (finals : list (Z * option chain * Z * Z)) : bool :=
+  let h := fun n => nth n honest false in
+  let inp := fun n => nth n inputs [] in
+  cfg_wfb c && (c_total c <=? 65535) &&
+  (3 * Spec.byz_power (power c) (committee c) h <? Spec.total (power c) (committee c)) &&
+  forallb (fun k => implb (nth k honest false) (negb (is_zero (nth k inputs [])))) (seq 0 (length honest)) &&
+  all_okb c h (net0 inp) acts && net_final_ok (nrun c (net0 inp) acts) finals.
